@@ -12,29 +12,19 @@ PROP = 'C17'
 TOL = 1e-9
 
 
-def mon_phase(result, pre, *a, **k):
-    orig = attach.original('bycycle.cyclepoints.phase', 'extrema_interpolated_phase')
-    args = monitors.bind(orig, a, k)
-    n = len(args['sig'])
-    peaks = [int(v) for v in np.asarray(args['peaks']).tolist()]
-    troughs = [int(v) for v in np.asarray(args['troughs']).tolist()]
-    rises = None if args['rises'] is None else [int(v) for v in np.asarray(args['rises']).tolist()]
-    decays = None if args['decays'] is None else [int(v) for v in np.asarray(args['decays']).tolist()]
+def in_quantifier(n, peaks, troughs, rises, decays):
+    """Alternating extrema at least two samples apart, inside the array, every supplied midpoint on its own flank (rise:
+    trough..peak, decay: peak..trough, at most one per flank).  Returns (ok, sorted extrema)."""
     ext = sorted([(p, 'p') for p in peaks] + [(t, 't') for t in troughs])
-    # quantifier: alternating extrema at least two samples apart, midpoints inside the extrema span
     if len(ext) < 2:
-        count('C17:outside_quantifier')
-        return
+        return False, ext
     for (x, kx), (y, ky) in zip(ext[:-1], ext[1:]):
         if kx == ky or y - x < 2:
-            count('C17:outside_quantifier')
-            return
+            return False, ext
     first, last = ext[0][0], ext[-1][0]
     mids = (rises or []) + (decays or [])
     if any(m < first or m > last for m in mids) or first < 0 or last >= n:
-        count('C17:outside_quantifier')
-        return
-    # every midpoint lies on its own flank (rise: trough..peak, decay: peak..trough), at most one per flank
+        return False, ext
     used = set()
     for lst, start_kind in ((rises, 't'), (decays, 'p')):
         for m in (lst or []):
@@ -44,9 +34,24 @@ def mon_phase(result, pre, *a, **k):
                     hit = fi
                     break
             if hit is None:
-                count('C17:outside_quantifier')
-                return
+                return False, ext
             used.add(hit)
+    return True, ext
+
+
+def mon_phase(result, pre, *a, **k):
+    orig = attach.original('bycycle.cyclepoints.phase', 'extrema_interpolated_phase')
+    args = monitors.bind(orig, a, k)
+    n = len(args['sig'])
+    peaks = [int(v) for v in np.asarray(args['peaks']).tolist()]
+    troughs = [int(v) for v in np.asarray(args['troughs']).tolist()]
+    rises = None if args['rises'] is None else [int(v) for v in np.asarray(args['rises']).tolist()]
+    decays = None if args['decays'] is None else [int(v) for v in np.asarray(args['decays']).tolist()]
+    ok, ext = in_quantifier(n, peaks, troughs, rises, decays)
+    if not ok:
+        count('C17:outside_quantifier')
+        return
+    first, last = ext[0][0], ext[-1][0]
     pha = np.asarray(result, dtype=float)
     count('C17:last_cyclepoint=%s:to_end=%s' % (ext[-1][1], min(2, n - 1 - last)))
     count('C17:first_cyclepoint=%s:from_start=%s' % (ext[0][1], min(2, first)))
@@ -117,8 +122,13 @@ def call(sh, n, peaks, troughs, rises, decays, driver, sig=None):
                                        None if rises is None else np.asarray(rises, dtype=int),
                                        None if decays is None else np.asarray(decays, dtype=int))
     except Exception as e:
-        vs.append({'mechanism': attach.exc_mechanism(e), 'message': 'extrema_interpolated_phase raised %r; peaks=%s troughs=%s n=%d'
-                                                                    % (e, list(peaks)[:6], list(troughs)[:6], n)})
+        okq, _ = in_quantifier(n, [int(v) for v in peaks], [int(v) for v in troughs],
+                               None if rises is None else [int(v) for v in rises], None if decays is None else [int(v) for v in decays])
+        if okq:
+            vs.append({'mechanism': attach.exc_mechanism(e), 'message': 'extrema_interpolated_phase raised %r; peaks=%s troughs=%s n=%d'
+                                                                        % (e, list(peaks)[:6], list(troughs)[:6], n)})
+        else:
+            attach.count('C17:raised_outside_quantifier')
     vs += [v for v in attach.take_violations() if v['property'] in (PROP, '_monitor')]
     if vs:
         case = {'n': n, 'peaks': [int(v) for v in peaks], 'troughs': [int(v) for v in troughs],
